@@ -186,6 +186,9 @@ fn layout(files: &[Vec<u8>], cas: &[Vec<u8>]) -> Layout {
 #[allow(clippy::too_many_arguments)]
 fn check_shard(ctx: &mut Ctx, rng: &mut Rng, bytes: &[u8], want_files: &[MDBFileInfo], want_cas: &[MDBCASInfo], label: &str, replay: &str, with_trunc: bool) {
     let (so, sl) = ctx.blob(bytes);
+    // should a reader bring the process down on this VALID shard (an abort on a failed giant allocation cannot be caught), the
+    // check reports this input
+    ctx.crumb("C09", &format!("a {label} of {} bytes ({} file records, {} xorb records) read through process_shard_stream / MDBMinimalShard::from_reader with every callback / option combination", bytes.len(), want_files.len(), want_cas.len()), replay);
     let wf: Vec<Vec<u8>> = want_files.iter().map(file_bytes).collect();
     let wc: Vec<Vec<u8>> = want_cas.iter().map(cas_bytes).collect();
 
@@ -268,6 +271,7 @@ fn check_shard(ctx: &mut Ctx, rng: &mut Rng, bytes: &[u8], want_files: &[MDBFile
     ctx.op(&format!("sstream.scan at={so}:{sl}"), &parts.join(" | "));
 
     // ---- truncated inputs: every record boundary ± a few bytes
+    ctx.crumb_clear();
     if with_trunc {
         let lay = layout(&wf, &wc);
         let mut cuts: Vec<usize> = vec![0, 1, 31, 32, 33, 40, 47, 48, 49, 95, 96, 97];
